@@ -71,6 +71,8 @@ pub fn lib_opts(tier: Tier, rng: &mut Rng) -> LibOpts {
     o.profile.max_depth = tier.pick(3, 4);
     o.profile.long_lists = tier.pick(1, 2);
     o.foreign = true;
+    o.profile.bracket_titles = true;
+    o.profile.image_links = true;
     o
 }
 
